@@ -1,12 +1,14 @@
 """C13 - stored values and compound keys round-trip.
-Proof: coq/theories/Properties/C13.v (models Codec/{Varint,CompoundKey,FieldCodec,Containers}.v).
+Proof: coq/theories/Properties/C13.v (models Codec/{Varint,CompoundKey,FieldCodec,Containers,Persist,Getters}.v).
 Correspondence: the extracted model against boltz.TypedBucket over a real bbolt database (values
-read back in a later transaction AND the raw bucket bytes), boltz.EncodeStringSlice /
+read back in a later transaction AND the raw bucket bytes), boltz.PersistContext over chains of real
+parent/child stores (contexts derived by GetParentContext / WithFieldOverrides), boltz.EncodeStringSlice /
 DecodeStringSlice / DecodeNext, GetTypeAndValue / FieldTo*, binary.PutUvarint / Uvarint.
 Every difference is classified with the property's own oracle, evaluated on the implementation's
 observation alone: a written value must read back equal (int32 widens, times as instants, string
 lists as sorted sets), nil stays distinct from "", a checker-restricted phase leaves every
-unselected field's raw bytes untouched, decode(encode l) = l, distinct lists never share an
+unselected field's raw bytes untouched - in the persisting store's part of the entity and in every
+ancestor store's part written through a derived context -, decode(encode l) = l, distinct lists never share an
 encoding, the decoder never panics."""
 import json
 import os
@@ -14,7 +16,7 @@ import os
 import vlib
 
 PID = "C13"
-FILES = ["theories/Properties/C13.v", "theories/Examples/C13Examples.v"]
+FILES = ["theories/Properties/C13.v", "theories/Examples/C13Examples.v", "theories/Examples/C13PersistExamples.v"]
 MARKER = b"__list__size__36484231-110c-4767-afe2-01b6e3db107a"
 
 
@@ -120,7 +122,9 @@ def parse_checker(s):
         return None
     if k == "c":
         names = set(unhex(s.next()) for _ in range(s.int()))
-        return lambda f: f in names
+        chk = lambda f: f in names  # noqa
+        chk.names = names       # MapFieldChecker.ToSlice is observed against them
+        return chk
     if k == "o":
         mp = {}
         for _ in range(s.int()):
@@ -222,6 +226,128 @@ def tokens_match(impl, model):
     return True
 
 
+DFLT = dict(swd="s:64666c74", soe="s:-", soee="1", bd="10", i32d="-4242", i64d="424242", toe="0:0", toee="1", tod="63000000000:7", sle="1", par="n")
+
+
+def slist_tok(l):
+    return ":".join([str(len(l))] + [(x.hex() or "-") for x in l])
+
+
+def check_defaults(name, val, g, bad):
+    """the getters with a default (GetStringWithDefault, GetStringOrError, GetBoolWithDefault, GetInt32/64WithDefault,
+    GetTimeOrError, GetTimeOrDefault, IsStringListEmpty): the stored value when the field holds one of the getter's type,
+    the default (and, for *OrError, an error on the bucket) when the field is null or absent; val None: absent field"""
+    want = dict(DFLT)
+    if val is not None:
+        if val[0] == "s":
+            want.update(swd="s:" + (val[1].hex() or "-"), soe="s:" + (val[1].hex() or "-"), soee="0")
+        elif val[0] == "b":
+            want.update(bd=str(val[1]) * 2)
+            del want["swd"], want["soe"], want["soee"]      # GetString renders a bool as text
+        elif val[0] == "i":
+            want.update(i32d=str(val[1]), i64d=str(val[1]))
+            del want["swd"], want["soe"], want["soee"]
+        elif val[0] == "l":
+            want.update(i64d=str(val[1]))
+            del want["swd"], want["soe"], want["soee"]
+        elif val[0] == "t":
+            want.update(toe="%d:%d" % (val[1], val[2]), toee="0", tod="%d:%d" % (val[1], val[2]))
+            del want["swd"], want["soe"], want["soee"]
+        elif val[0] == "sl":
+            want.update(sle=str(int(len(set(val[1])) == 0)), par="1")
+        elif val[0] == "f":
+            del want["swd"], want["soe"], want["soee"]
+        elif val[0] in ("m", "a"):
+            want.update(par="1")                              # GetBucket(name).GetParent() is the entity bucket
+            del want["sle"]                                   # a map / list bucket is not a string list
+    diff = sorted(k for k in want if g.get(k) != want[k])
+    if diff:
+        bad.append(("default-getter", "field %r %s: the getters with a default return %s, expected %s"
+                    % (name[:40], "is absent" if val is None else "holds a %s" % val[0], {k: g.get(k) for k in diff}, {k: want[k] for k in diff})))
+
+
+def check_readback(name, val, o, bad):
+    """the last value written to a field must read back equal; o: the getters' observation of the field"""
+    f = o["F"]
+    if "G" in o:
+        check_defaults(name, val, o["G"], bad)
+    if val[0] == "n":
+        if any(f[k] != "n" for k in ("str", "bool", "i32", "i64", "f64", "time")):
+            bad.append(("roundtrip-nil", "nil written to %r reads back as %r" % (name, f)))
+    elif val[0] == "s":
+        want = "s:" + (val[1].hex() or "-")
+        if f["str"] != want:
+            bad.append(("roundtrip-string", "string %r written to %r reads back as %s" % (val[1][:40], name, f["str"][:80])))
+    elif val[0] == "b":
+        if f["bool"] != str(val[1]):
+            bad.append(("roundtrip-bool", "bool %s reads back as %s" % (val[1], f["bool"])))
+    elif val[0] == "i":
+        if f["i32"] != str(val[1]) or f["i64"] != str(val[1]):
+            bad.append(("roundtrip-int32", "int32 %d reads back as int32 %s / int64 %s" % (val[1], f["i32"], f["i64"])))
+    elif val[0] == "l":
+        if f["i64"] != str(val[1]):
+            bad.append(("roundtrip-int64", "int64 %d reads back as %s" % (val[1], f["i64"])))
+    elif val[0] == "f":
+        if f["f64"] != val[1]:
+            bad.append(("roundtrip-float64", "float64 bits %s read back as %s" % (val[1], f["f64"])))
+    elif val[0] == "t":
+        if f["time"] != "%d:%d" % (val[1], val[2]):
+            bad.append(("roundtrip-time", "instant %d s %d ns reads back as %s" % (val[1], val[2], f["time"])))
+    elif val[0] == "sl":
+        want = sorted(set(val[1]))
+        want_tok = ":".join([str(len(want))] + [(x.hex() or "-") for x in want])
+        if f["sl"] != want_tok:
+            bad.append(("roundtrip-strlist", "string list of %d reads back as %s" % (len(val[1]), f["sl"][:120])))
+    elif val[0] in ("m", "a"):
+        # no guard: whatever the store accepted must come back equal (container_read_back)
+        sec = o["M"] if val[0] == "m" else o["L"]
+        try:
+            got = parse_value(Toks(sec), observed=True) if sec not in (["n"], ["p"], ["x"]) else None
+        except Exception:  # noqa
+            got = None
+        if got != val:
+            if has_marker_key(val):
+                bad.append(("reserved-key-map", "a map with the reserved list-size key written to %r is accepted but reads back different (as a list)" % name))
+            else:
+                bad.append(("roundtrip-map" if val[0] == "m" else "roundtrip-list", "%s written to %r reads back different" % ("map" if val[0] == "m" else "list", name)))
+
+
+def prune_dump(d, x):
+    """a bucket tree without the keys named x at any depth"""
+    return {k: (v if v[0] == "L" else ("D", prune_dump(v[1], x))) for k, v in d.items() if k != x}
+
+
+def entity_sections_oracle(secs, state, bad):
+    """ForEachTypedBucket enumerates exactly the sub-buckets of the entity, in key order; TypedBucket.Copy of the entity
+    into an empty bucket reads back equal (a deep copy), with a filter it is the entity without the rejected keys, and
+    copying the whole over a partial copy gives the whole; state: the entity's final stored tree"""
+    for sec in secs:
+        if sec[0] == "B":
+            want = ["%s:%d" % (k.hex() or "-", len(v[1])) for k, v in sorted(state.items()) if v[0] == "D"]
+            if sec[1] == "panic" or sec[2:] != want:
+                bad.append(("for-each-bucket", "ForEachTypedBucket yields %s for an entity with the sub-buckets %s" % (sec[1:8], want[:8])))
+        elif sec[0] in ("C", "E", "O"):
+            if "ok" not in sec:
+                if sec[-1] != "skip":
+                    bad.append(("copy-roundtrip", "TypedBucket.Copy of the entity bucket into a fresh bucket fails (%s)" % sec[-1]))
+                continue
+            got = parse_dump(Toks(sec[sec.index("ok") + 1:]))
+            want = prune_dump(state, unhex(sec[1])) if sec[0] == "E" else state
+            if got != want:
+                bad.append(("copy-roundtrip", "TypedBucket.Copy (%s) does not read back as the source"
+                            % {"C": "whole entity into an empty bucket", "E": "without the keys named %s" % sec[1], "O": "whole entity over a partial copy"}[sec[0]]))
+
+
+def toslice_oracle(sec, chk, bad):
+    """MapFieldChecker.ToSlice: the selected names, as a set"""
+    names = getattr(chk, "names", None)
+    if names is None:
+        return
+    toks = [t for t in sec if t.startswith("ts:")]
+    if toks != ["ts:" + slist_tok(sorted(names))]:
+        bad.append(("checker-to-slice", "MapFieldChecker.ToSlice of a checker over %d names gives %s" % (len(names), toks[:1])))
+
+
 # ---- the property's oracle on one scenario ----------------------------------------------------
 
 def scenario_oracle(case, impl_line):
@@ -246,6 +372,7 @@ def scenario_oracle(case, impl_line):
                 bad.append(("write-refused", "a %s call with a supported value on an empty bucket fails (%s)" % (ops[0][0], sec[1])))
             continue
         d = sec.index("D")
+        toslice_oracle(sec[:d], chk, bad)
         after = parse_dump(Toks(sec[d:]))
         touched = set()
         for kind, name, val in ops:
@@ -260,54 +387,211 @@ def scenario_oracle(case, impl_line):
     while idx < len(secs):
         sec = secs[idx]
         idx += 1
-        if sec[0] == "F":
-            obs.setdefault(unhex(sec[1]), {})["F"] = dict(t.split("=", 1) for t in sec[2:])
+        if sec[0] in ("F", "G"):
+            obs.setdefault(unhex(sec[1]), {})[sec[0]] = dict(t.split("=", 1) for t in sec[2:])
         elif sec[0] in ("L", "M"):
             obs.setdefault(unhex(sec[1]), {})[sec[0]] = sec[2:]
     for name, (kind, val) in last.items():
         o = obs.get(name)
         if o is None:
             continue
-        f = o["F"]
-        if val[0] == "n":
-            if any(f[k] != "n" for k in ("str", "bool", "i32", "i64", "f64", "time")):
-                bad.append(("roundtrip-nil", "nil written to %r reads back as %r" % (name, f)))
-        elif val[0] == "s":
-            want = "s:" + (val[1].hex() or "-")
-            if f["str"] != want:
-                bad.append(("roundtrip-string", "string %r written to %r reads back as %s" % (val[1][:40], name, f["str"][:80])))
-        elif val[0] == "b":
-            if f["bool"] != str(val[1]):
-                bad.append(("roundtrip-bool", "bool %s reads back as %s" % (val[1], f["bool"])))
-        elif val[0] == "i":
-            if f["i32"] != str(val[1]) or f["i64"] != str(val[1]):
-                bad.append(("roundtrip-int32", "int32 %d reads back as int32 %s / int64 %s" % (val[1], f["i32"], f["i64"])))
-        elif val[0] == "l":
-            if f["i64"] != str(val[1]):
-                bad.append(("roundtrip-int64", "int64 %d reads back as %s" % (val[1], f["i64"])))
-        elif val[0] == "f":
-            if f["f64"] != val[1]:
-                bad.append(("roundtrip-float64", "float64 bits %s read back as %s" % (val[1], f["f64"])))
-        elif val[0] == "t":
-            if f["time"] != "%d:%d" % (val[1], val[2]):
-                bad.append(("roundtrip-time", "instant %d s %d ns reads back as %s" % (val[1], val[2], f["time"])))
-        elif val[0] == "sl":
-            want = sorted(set(val[1]))
-            want_tok = ":".join([str(len(want))] + [(x.hex() or "-") for x in want])
-            if f["sl"] != want_tok:
-                bad.append(("roundtrip-strlist", "string list of %d reads back as %s" % (len(val[1]), f["sl"][:120])))
-        elif val[0] in ("m", "a"):
-            # no guard: whatever the store accepted must come back equal (container_read_back)
-            sec = o["M"] if val[0] == "m" else o["L"]
-            try:
-                got = parse_value(Toks(sec), observed=True) if sec not in (["n"], ["p"], ["x"]) else None
-            except Exception:  # noqa
-                got = None
-            if got != val:
-                if has_marker_key(val):
-                    bad.append(("reserved-key-map", "a map with the reserved list-size key written to %r is accepted but reads back different (as a list)" % name))
+        check_readback(name, val, o, bad)
+    for name, o in obs.items():
+        if name not in state and "G" in o:
+            check_defaults(name, None, o["G"], bad)
+    entity_sections_oracle(secs[1:], state, bad)
+    return bad
+
+
+# ---- persists through PersistContext over a chain of stores (case kind X) -----------------------
+
+def parse_xop(s, create, ent_id):
+    """one setter call through a context: (kind, field name, value it writes)"""
+    k = s.peek()
+    if k == "links":
+        s.next()
+        name = unhex(s.next())
+        return ("links", name, ("sl", [unhex(s.next()) for _ in range(s.int())]))
+    if k == "isc":
+        s.next()
+        name = unhex(s.next())
+        vc, vu = unhex(s.next()), unhex(s.next())
+        return ("isc", name, ("s", vc if create else vu))
+    if k == "id":
+        s.next()
+        return ("id", unhex(s.next()), ("s", ent_id))
+    if k == "tx":
+        s.next()
+        return ("tx", unhex(s.next()), ("b", 1))
+    return parse_op(s)
+
+
+def parse_persist_scenario(case):
+    s = Toks(case.split())
+    assert s.next() == "X"
+    chain = []
+    for _ in range(s.int()):
+        chain.append(tuple(unhex(s.next()) for _ in range(s.int())))
+    ent_id = unhex(s.next())
+    init = parse_dump(s)
+    phases = []
+    for _ in range(s.int()):
+        assert s.next() == "P"
+        create = s.next() == "1"
+        chk = parse_checker(s)
+        stmts = []
+        for _ in range(s.int()):
+            k = s.next()
+            if k == "g":
+                stmts.append(("g", s.int()))
+            elif k == "w":
+                slot = s.int()
+                mp = {}
+                for _ in range(s.int()):
+                    a, b = unhex(s.next()), unhex(s.next())
+                    mp.setdefault(a, b)
+                stmts.append(("w", slot, mp))
+            elif k == "s":
+                slot = s.int()
+                stmts.append(("s", slot, parse_xop(s, create, ent_id)))
+            else:
+                raise ValueError("bad statement %r" % k)
+        phases.append((create, chk, stmts))
+    assert s.next() == "R"
+    reads = [(s.int(), unhex(s.next())) for _ in range(s.int())]
+    return chain, ent_id, init, phases, reads
+
+
+def with_overrides(chk, mp):
+    """PersistContext.WithFieldOverrides: a nil checker stays nil"""
+    if chk is None:
+        return None
+    return lambda f: chk(mp.get(f, f))
+
+
+def persist_writes(chain, chk, stmts):
+    """what the property demands of one persist restricted by checker chk: every context derived by
+    GetParentContext belongs to the same restricted write (its checker is the receiver's at that
+    moment), WithFieldOverrides renames fields for the checker of that one context.  Returns the
+    key paths of the fields that proceeding calls name, with the call, or None when the program
+    uses a context that does not exist (outside the property)."""
+    slots = {0: (0, chk)}
+    out = []
+    for st in stmts:
+        if st[1] not in slots:
+            return None
+        lvl, c = slots[st[1]]
+        if st[0] == "g":
+            if lvl + 1 >= len(chain):
+                return None
+            slots[st[1] + 1] = (lvl + 1, c)
+        elif st[0] == "w":
+            slots[st[1]] = (lvl, with_overrides(c, st[2]))
+        else:
+            kind, name, val = st[2]
+            if kind == "nil" or c is None or c(name):
+                out.append((chain[lvl] + (name,), lvl, kind, val))
+    return out
+
+
+def frame_diffs(before, after, addr, touched, created):
+    """key paths of nodes that changed although no proceeding call names them, a field above them or
+    a field below them; before/after: ('L', bytes) | ('D', dict) | None; created: the path of the
+    bucket a Create may make"""
+    if addr in touched:
+        return []
+    below = any(t[:len(addr)] == addr for t in touched)
+    on_created = created is not None and created[:len(addr)] == addr
+    if not addr or below or on_created:
+        if before is None and on_created:
+            before = ("D", {})
+        if before is not None and after is not None and before[0] == "D" and after[0] == "D":
+            out = []
+            for k in sorted(set(before[1]) | set(after[1])):
+                out += frame_diffs(before[1].get(k), after[1].get(k), addr + (k,), touched, created)
+            return out
+    if before == after:
+        return []
+    # name the innermost changed node
+    if before is not None and after is not None and before[0] == "D" and after[0] == "D":
+        out = []
+        for k in sorted(set(before[1]) | set(after[1])):
+            out += frame_diffs(before[1].get(k), after[1].get(k), addr + (k,), set(), None)
+        return out or [addr]
+    return [addr]
+
+
+def persist_oracle(case, impl_line):
+    """the property on one X case, from the implementation's observation alone: after every persist
+    each stored node that the checker-selected calls do not name (in the store's own part and in every
+    ancestor store's part of the entity) holds the bytes it held before; the last value written to a
+    field reads back equal"""
+    bad = []
+    chain, ent_id, init, phases, reads = parse_persist_scenario(case)
+    secs = sections(impl_line)
+    if any(t.startswith("harness-error") for sec in secs for t in sec):
+        return [("harness-error", impl_line[:300])]
+    idx = 1
+    assert secs[idx][0] == "I"
+    state = parse_dump(Toks(secs[idx][1:]))
+    idx += 1
+    last = {}           # key path of a field -> (level, name, value of the last proceeding call)
+    for create, chk, stmts in phases:
+        sec = secs[idx]
+        idx += 1
+        assert sec[0] == "P"
+        if sec[1] != "ok":
+            continue
+        toslice_oracle(sec[:sec.index("D")], chk, bad)
+        after = parse_dump(Toks(sec[sec.index("D"):]))
+        writes = persist_writes(chain, chk, stmts)
+        if writes is not None:
+            touched = set(w[0] for w in writes)
+            seen = set()
+            for addr in frame_diffs(("D", state), ("D", after), (), touched, chain[0] if create else None):
+                # the store whose part of the entity the node lies in: the deepest bucket of the chain above it
+                lvl = max((l for l, p in enumerate(chain) if len(p) < len(addr) and addr[:len(p)] == p), key=lambda l: len(chain[l]), default=None)
+                field = addr[:len(chain[lvl]) + 1] if lvl is not None else addr
+                if field in seen:
+                    continue
+                seen.add(field)
+                if lvl is not None and lvl > 0:
+                    bad.append(("checker-frame-parent-context",
+                                "a persist restricted by a field checker changed field %r in the part of the entity that belongs to ancestor store #%d "
+                                "(written through the context derived by GetParentContext) although no call the checker selects names it"
+                                % (field[-1], lvl)))
                 else:
-                    bad.append(("roundtrip-map" if val[0] == "m" else "roundtrip-list", "%s written to %r reads back different" % ("map" if val[0] == "m" else "list", name)))
+                    bad.append(("checker-frame", "stored node %s is not named by any call the checker selects but its stored bytes changed"
+                                % "/".join(repr(k) for k in field)))
+            for addr, lvl, kind, val in writes:
+                last[addr] = (lvl, addr[-1], val)
+                for other in [a for a in last if a != addr and (a[:len(addr)] == addr or addr[:len(a)] == a)]:
+                    del last[other]
+        else:
+            last = {}
+        state = after
+    if bad:
+        return bad      # which call wrote a field last is only known while the frame holds
+    obs = {}
+    while idx < len(secs):
+        sec = secs[idx]
+        idx += 1
+        if sec[0] in ("F", "G") and sec[-1] != "nobucket":
+            obs.setdefault((int(sec[1]), unhex(sec[2])), {})[sec[0]] = dict(t.split("=", 1) for t in sec[3:])
+        elif sec[0] in ("L", "M"):
+            obs.setdefault((int(sec[1]), unhex(sec[2])), {})[sec[0]] = sec[3:]
+    for addr, (lvl, name, val) in last.items():
+        o = obs.get((lvl, name))
+        if o is None or "F" not in o:
+            continue
+        check_readback(name, val, o, bad)
+    for (lvl, name), o in obs.items():
+        node = ("D", state)
+        for k in chain[lvl] + (name,):
+            node = node[1].get(k) if node is not None and node[0] == "D" else None
+        if node is None and "G" in o:
+            check_defaults(name, None, o["G"], bad)
+    entity_sections_oracle(secs[1:], state, bad)
     return bad
 
 
@@ -332,10 +616,10 @@ def main(argv):
     c = vlib.Check(PID, argv)
     c.cov["trusted_base"] = [
         "Coq 8.16.1 kernel (coqc; coqchk in the thorough tier); vm_compute in Examples only; no axioms",
-        "hand-written models Codec/Varint.v, CompoundKey.v, FieldCodec.v, Containers.v of boltz/encode.go, boltz/typed_bucket.go, "
+        "hand-written models Codec/Varint.v, CompoundKey.v, FieldCodec.v, Containers.v, Persist.v, Getters.v of boltz/encode.go, boltz/typed_bucket.go, boltz/base.go PersistContext, "
         "encoding/binary varints, time.Time (Un)MarshalBinary and of a bbolt bucket (sorted key -> value | sub-bucket; Put/CreateBucket error rules)",
         "extraction (ExtrOcamlBasic only) + extraction/c13_driver.ml + drv_common.ml",
-        "Go harness cmd/storageharness/c13.go, c13gen.go (generators, bucket walker) and this comparison / oracle",
+        "Go harness cmd/storageharness/c13.go, c13gen.go, c13x.go (generators, bucket walker, store chains) and this comparison / oracle",
         "bbolt (the store the values are written to and read from; compared, not verified)",
     ]
     c.assumptions = [
@@ -345,6 +629,8 @@ def main(argv):
         "values < 2^31-2 bytes, lists shorter than 2^31",
         "compound keys: components of at most 4096 bytes (MaxLinkedSetKeySize) - longer ones are rejected by the encoder",
         "float32 values are compared through their float64 widening (no NaN payloads); float formatting and int->float coercion (GetFloat64 on an int field, GetString on a float/time field) are not modelled and not compared",
+        "persists over store chains (X): field names never equal a key of a store's bucket path (a setter replacing the bucket of a descendant store leaves stale bucket handles in the code); "
+        "SetLinkedIds is modelled on the entity's own side, on a field that only SetLinkedIds writes and with ids of existing entities (the far side of a link is C05's)",
         "reads of crafted buckets that no setter produces (short payloads, negative list size, GetList on an absent field) may panic in the code; the property is silent there and the comparison accepts any behaviour",
     ]
     proof_ok = c.proof_step(FILES)
@@ -396,6 +682,18 @@ def main(argv):
                 if sec is not None:
                     disagreements.append((sec, case, i, m))
             distinct.add(case)
+        elif kind == "X":
+            try:
+                bad = persist_oracle(case, i)
+            except Exception as e:  # noqa
+                bad = [("oracle-error", "cannot interpret the observation: %r" % e)]
+            for key, what in bad:
+                c.violation("C13:" + key, what, dict(case=case, impl=i, model=m))
+            if not bad:
+                sec = scenario_corresponds(i, m)
+                if sec is not None:
+                    disagreements.append(("X " + sec, case, i, m))
+            distinct.add(case)
         elif kind == "K":
             cf, fi = case.split(), i.split()
             comps = cf[2:]
@@ -443,7 +741,13 @@ def main(argv):
     c.cov["rule"] = ("S: scenarios on a real bbolt file - boundary tables (strings incl. empty/invalid UTF-8/32 KiB, int32/int64 limits, special floats and NaN payloads, "
                      "instants from year 1 to int64 limits in 22 zones, empty/typed-nil containers, unsupported types), all 16 checker subsets over 4 fields, seeded random "
                      "multi-phase histories (TypedBucket and PersistContext setters, mapped checkers, containers nested <= 4) and hostile ones (crafted raw buckets, marker key, "
-                     "bad keys); after every phase the raw bucket bytes are walked in a later transaction and compared with the model byte for byte, then every getter on every field. "
+                     "bad keys); after every phase the raw bucket bytes are walked in a later transaction and compared with the model byte for byte, then every getter on every field "
+                     "(incl. the *WithDefault / *OrDefault / *OrError getters, IsStringListEmpty, GetParent), ForEachTypedBucket on the entity and TypedBucket.Copy of it (whole, filtered, overlaid); "
+                     "MapFieldChecker.ToSlice of every plain checker. "
+                     "X: persists through boltz.PersistContext over chains of 1-4 real stores (child bucket nested 1-3 keys below the parent's, sibling buckets): the context a store builds "
+                     "for Create/Update, contexts derived by GetParentContext (also re-derived, also on the root store) and WithFieldOverrides before/after deriving, every PersistContext setter "
+                     "incl. SetLinkedIds, IsCreate-dependent values, ctx.Id, ctx.Tx(); all checker subsets over the fields of two and three stores, random multi-phase programs; the raw bytes of the "
+                     "whole entity tree compared after every persist, frame oracle per store part. "
                      "K: all lists of <= 3 components over a 6-symbol prefix-ambiguous alphabet + random lists around the 127/128/4096 boundaries; D/N: malformed keys (truncations, junk, "
                      "non-canonical and overflowing varints, hostile lengths) in a child process with an address-space limit; T: FieldTo* on arbitrary payloads; U/V: varints. "
                      "Non-trivial: every S/T/U/V case, K with >= 1 component, D/N with non-empty input; distinct by case text")
@@ -462,7 +766,7 @@ def main(argv):
             by[d[0]] = by.get(d[0], 0) + 1
         c.violation("C13:correspondence", "the codec models and boltz differ on %d cases (by section: %s), first in section %s; no explored input violates the property itself"
                     % (len(disagreements), dict(sorted(by.items())[:8]), sec),
-                    dict(correspondence="Codec/*.v vs boltz typed_bucket.go / encode.go", theorems=["field_roundtrip", "container_roundtrip", "compound_key_roundtrip", "checker_frame"],
+                    dict(correspondence="Codec/*.v vs boltz typed_bucket.go / encode.go / base.go", theorems=["field_roundtrip", "container_roundtrip", "compound_key_roundtrip", "checker_frame", "persist_frame"],
                          case=case, impl=i, model=m), no_input=True)
     if not proof_ok:
         c.violation("C13:proof", "proof obligation no longer checks: %s" % json.dumps(c.proof_broken)[:600],
